@@ -20,6 +20,8 @@ type c08Case struct {
 	PreAlloc []int      `json:"pre_alloc"` // picks of IPs owned by others
 	PreOwn   []int      `json:"pre_own"`   // picks of IPs (inside the ranges) already owned by the same key
 	NodePick int        `json:"node_pick"`
+	// Restart: galaxy-ipam restarts (and re-reads configuration and store) between the pre-owned allocations and the request
+	Restart bool `json:"restart,omitempty"`
 }
 
 func genC08() *rapid.Generator[c08Case] {
@@ -39,6 +41,7 @@ func genC08() *rapid.Generator[c08Case] {
 			c.PreOwn = append(c.PreOwn, rapid.IntRange(0, 1000).Draw(t, "own"))
 		}
 		c.NodePick = rapid.IntRange(0, 7).Draw(t, "node")
+		c.Restart = m > 0 && rapid.Bool().Draw(t, "restart")
 		return c
 	})
 }
@@ -136,7 +139,7 @@ func checkC08(c c08Case, r *vcore.Rec) *vcore.Failure {
 	k := len(c.Ranges)
 	all := c.Topo.AllIPs()
 	pools := c.Topo.Pools
-	exhausted, preowned, failedIdx := false, false, false
+	exhausted, preowned, failedIdx, restarted := false, false, false, false
 	// --- level A: the IPAM call itself, with the j-th object creation failing (j = 0 means no fault)
 	for j := 0; j <= k; j++ {
 		st, f := setupC08(&c)
@@ -274,6 +277,13 @@ func checkC08(c c08Case, r *vcore.Rec) *vcore.Failure {
 			return f
 		}
 		w := st.x.W
+		if c.Restart {
+			if err := w.Restart(); err != nil {
+				return vcore.Failf("harness:restart", "restart failed: %v", err)
+			}
+			st.x.buildAPI()
+			restarted = true
+		}
 		nodes, _, err, _ := w.Filter(st.pod.Name, st.x.nodeNames())
 		if err != nil || len(nodes) == 0 {
 			r.Logf("level B filter -> %v err=%v", nodes, err)
@@ -330,6 +340,7 @@ func checkC08(c c08Case, r *vcore.Rec) *vcore.Failure {
 	}
 	r.ClassIf(exhausted, "range_exhausted")
 	r.ClassIf(preowned, "range_preowned")
+	r.ClassIf(restarted && preowned, "preowned_then_restarted")
 	r.ClassIf(failedIdx, "create_failed_at_index_ge_1")
 	r.ClassIf(k >= 2, "k_ge_2")
 	if k >= 2 && (failedIdx || exhausted || preowned) {
